@@ -52,6 +52,36 @@ func c01e(c *Ctx) {
 	c01eLoops(c, splitFn, sbe)
 	c01eIf(c, splitFn, sbe)
 	c01eWorklist(c)
+	c01eConditionRequired(c)
+}
+
+// c01eConditionRequired: the lowering templates of if / elif assume a condition (the entry of the
+// construct is the entry chunk of its condition; without one the "entry" is -1 and the construct
+// is rendered as a jump to nowhere). Only 'while' may be written without a condition (the
+// documented infinite loop, lowered by its own template). So every call of the condition parser
+// outside parseWhileStatement requires the expression.
+func c01eConditionRequired(c *Ctx) {
+	pce := c.Fn("parser.Parser.parseConditionExpression")
+	if pce == nil {
+		return
+	}
+	n := 0
+	for _, ci := range c.W.callsTo(pce) {
+		f := ci.Parent()
+		if isTestFunc(c.W, f) {
+			continue
+		}
+		n++
+		a := ci.Common().Args
+		req, isConst := a[len(a)-1].(*ssa.Const)
+		key := fmt.Sprintf("condition-required/%s@%d", f.Name(), c.T(f).callOrd[ci])
+		if f.Name() == "parseWhileStatement" {
+			c.OK(key, c.W.Pos(ci.Pos()), "while may omit its condition (infinite loop)")
+			continue
+		}
+		c.Check(isConst && req.Value != nil && req.Value.String() == "true", key, c.W.Pos(ci.Pos()), "the condition is required here", f.Name()+" parses its condition as optional: 'if { ... }' would be accepted and lowered as a jump to chunk -1")
+	}
+	c.Check(n >= 3, "condition-required/sites", c.W.FuncPos(pce), "call sites of the condition parser examined", fmt.Sprintf("expected at least 3 calls of parseConditionExpression, found %d", n))
 }
 
 // splitChunkForBranch: result id = receiver's returnID when last, else id of the new chunk.
